@@ -628,6 +628,9 @@ func boundaryCases() []*Case {
 			Hist: []Log{big(3, 1), big(4, 3), big(5, 4)}}),
 		mk("chain-id-never-answers", Case{Mode: "run", Chunk: 3, Latest: 4, Fin1: 2, Fin2: 3, ChainIDFails: neverSucceeds,
 			Stored: &HeadJ{2, 2, 9}, StoredL1: 0, Hist: []Log{big(3, 1), big(4, 3)}}),
+		// … / the probe is cancelled in the middle of the call (after one failed attempt)
+		mk("chain-id-probe-cancelled-mid-call", Case{Mode: "run", Chunk: 3, Latest: 4, Fin1: 2, Fin2: 3, ChainIDFails: 1, ChainIDHangs: true,
+			Stored: &HeadJ{2, 2, 9}, StoredL1: 0, Hist: []Log{big(3, 1), big(4, 3)}}),
 		mk("stored-older-than-scan", Case{Mode: "run", Chunk: 2, Latest: 9, Fin1: 6, Fin2: 6, Stored: &HeadJ{7, 7, 14}, StoredL1: 2,
 			Hist: []Log{big(7, 2), big(8, 4)}, Ops: []Op{{Kind: "sync"}}}),
 	}
